@@ -9,7 +9,7 @@ use std::collections::BTreeMap;
 
 #[derive(Clone, Debug)]
 pub struct AlphaModel {
-  /// Key in plans: A1, A2, B, B2, C, D, E, F, G, H
+  /// Key in plans: A1, A2, B, B2, C, D, E, F, G, H, I, J, K, L, M, N
   pub key: &'static str,
   pub namespace: &'static str,
   pub name: &'static str,
@@ -155,7 +155,7 @@ pub const ECHO_INPUTS: [(&str, &str); 9] = [
 ];
 
 /// (key, namespace, name, version, broken)
-pub const ALPHA_SPEC: [(&str, &str, &str, &str, bool); 13] = [
+pub const ALPHA_SPEC: [(&str, &str, &str, &str, bool); 16] = [
   ("A1", "urn:a", "ma", "A1", false),
   ("A2", "urn:a", "ma", "A2", false),
   ("B", "urn:b", "mb", "B", false),
@@ -170,9 +170,14 @@ pub const ALPHA_SPEC: [(&str, &str, &str, &str, bool); 13] = [
   ("I", "urn:A", "MA", "I", false),
   ("J", "urn:a/", "ma ", "J", false),
   ("K", "urn:\u{e4}", "m\u{e4} \u{f6}", "K", false),
+  // keys crossed with A's: the namespace is A's name and the name is A's namespace (an index consulted with the
+  // wrong key would confuse them); a model whose name equals its own namespace; an empty namespace
+  ("L", "ma", "urn:a", "L", false),
+  ("M", "urn:m", "urn:m", "M", false),
+  ("N", "", "mn", "N", false),
 ];
 
-pub const ALPHA_KEYS: [&str; 13] = ["A1", "A2", "B", "B2", "C", "D", "E", "F", "G", "H", "I", "J", "K"];
+pub const ALPHA_KEYS: [&str; 16] = ["A1", "A2", "B", "B2", "C", "D", "E", "F", "G", "H", "I", "J", "K", "L", "M", "N"];
 
 /// Facts about the alphabet established by running the code under test on each model alone
 /// (the oracle compares the code with itself, never with an outside notion of the right value).
